@@ -16,7 +16,7 @@ def run(out, sc, tier, seed):
               expect_violation="Inv_EagerIsLazy_NoExclusion", what="non-vacuity: the empty-host divergence (known finding) is found by TLC")
     out.exhaustive = True
     n = 6000 if tier == "quick" else 50000
-    run_progs(out, sc, "C09", {"gen": "progs", "n": n, "seed": seed, "surrogate_p": 0.02, "surrogate_base_p": 0.04, "extras": ["twin"],
+    run_progs(out, sc, "C09", {"gen": "progs", "n": n, "seed": seed, "surrogate_p": 0.02, "surrogate_base_p": 0.04, "extras": ["twin", "self_twin"],
                                "encoded_p": 0.3}, "progs", shard_size=600)
     replay_behaviours(out, sc, tier, seed, "C09")
     from .common import run_witnesses
